@@ -28,7 +28,8 @@ RULE = ("case: k in {2,3} classes labelled 0..k-1 with 15..40 samples each (Gaus
         "map), d features with d in {2,3,4} in both tiers (about 1/2 2-D, 3/8 3-D, 1/8 4-D; every quick run also executes "
         "fixed 3-D cases in both subs and a fixed 4-D case in std), 0..8 unlabelled samples in the original set, split percentage in "
         "{0.5..0.9, 1.0}, split_evenly, shuffle_data, optional user data_range (wider / narrower than the data), learning "
-        "by perform_classification (1<=lmin<=lmax<=3, masslumping on/off, lambda 0/0.01) [sub std] or "
+        "by perform_classification (1<=lmin<=lmax<=3, masslumping on/off - off only while the largest component grid has <= 100 "
+        "interior points, a pure cost limit -, lambda 0/0.01) [sub std] or "
         "perform_classification_dimension_wise (lmax 2..3, max_evaluations 20..60) [sub dw], one_vs_others on/off; then 1..3 "
         "operations, each `cl(ds)` or `cl.test_data(ds)` on a fresh DataSet of 1..14 samples whose zone is inside (random "
         "points and original samples incl. the extreme ones) / partly outside (clear, near-threshold and - for __call__ - "
@@ -949,6 +950,10 @@ def _strategy(mode):
             if mode == "std":
                 lmin = draw(st.integers(1, 3))
                 case.update(lmin=lmin, lmax=draw(st.integers(lmin, 3)))
+                # cost only: without mass lumping the library assembles the full hat-product matrix point pair by point pair
+                # (d=3 (3,3): 7 s, d=4 (2,3): 10 s, d=4 (3,3): 6 min); the largest component grid is kept <= 100 interior points there
+                if not case["masslumping"] and (2 ** lmin - 1) ** (d - 1) * (2 ** case["lmax"] - 1) > 100:
+                    case["masslumping"] = True
             else:
                 case.update(lmin=1, lmax=draw(st.sampled_from([2, 2, 3])), max_eval=draw(st.sampled_from([20, 40, 60])))
                 # a small share starts from a fine initial scheme: component grids with >= 200 points are evaluated by the
